@@ -225,18 +225,7 @@ def run_harness(binp, engine, cases, shards=16, timeout=900, extra_env=None):
     shards = max(1, min(shards, len(cases)))
     chunks = [cases[i::shards] for i in range(shards)]
 
-    def work(chunk):
-        inp = "".join(json.dumps(c) + "\n" for c in chunk)
-        e = dict(os.environ)
-        e.update(extra_env or {})
-        try:
-            p = subprocess.run([binp, engine], input=inp, stdout=subprocess.PIPE, stderr=subprocess.PIPE,
-                               text=True, timeout=timeout, env=e)
-            out, err, rc = p.stdout, p.stderr, p.returncode
-        except subprocess.TimeoutExpired as ex:
-            out = ex.stdout.decode() if isinstance(ex.stdout, bytes) else (ex.stdout or "")
-            err, rc = "timeout", -9
-        res = {}
+    def parse(out, res):
         for line in out.split("\n"):
             k = line.find("@@R ")
             if k >= 0:
@@ -245,6 +234,30 @@ def run_harness(binp, engine, cases, shards=16, timeout=900, extra_env=None):
                     res[r["id"]] = r
                 except Exception:
                     pass
+
+    def work(chunk):
+        res = {}
+        todo = list(chunk)
+        rc, err = 0, ""
+        while todo:
+            inp = "".join(json.dumps(c) + "\n" for c in todo)
+            e = dict(os.environ)
+            e.update(extra_env or {})
+            try:
+                p = subprocess.run([binp, engine], input=inp, stdout=subprocess.PIPE, stderr=subprocess.PIPE,
+                                   text=True, timeout=timeout, env=e)
+                out, err, rc = p.stdout, p.stderr, p.returncode
+            except subprocess.TimeoutExpired as ex:
+                out = ex.stdout.decode() if isinstance(ex.stdout, bytes) else (ex.stdout or "")
+                err, rc = "timeout", -9
+            before = len(res)
+            parse(out, res)
+            # exit code 3: the engine's watchdog reported a hanging case and stopped the worker;
+            # carry on with the cases that have no result yet
+            todo = [c for c in todo if c["id"] not in res]
+            if rc != 3 or len(res) == before:
+                break
+            rc = 0
         return res, rc, err
 
     results = {}
